@@ -31,7 +31,8 @@ TECHNIQUE = "deterministic simulation: template grammar vs independent renderer 
 
 LITS = ("", " ", "value=", "hit ", " and ", "-> ", "é ü 中 ", "100% done; ", "a.b,c ", "[x] ", "(p) ", "#", "\t", "'q' \"d\" ")
 FIELDS_OK = ("i", "val", "name", "flag", "person", "person.name", "person.age", "person.greet()", "data['k']",
-             "data['l'][0]", "data", "G_HOST", "len(name)", "i + val", "name.upper()", "x if False else i")
+             "data['l'][0]", "data", "G_HOST", "len(name)", "i + val", "name.upper()", "x if False else i",
+             "BIG", "BIG[1]", "i * 1.5", "val / 4")
 FIELDS_BAD = ("nosuch", "person.nope", "data['zz']", "1 / 0", "host_raise('kaboom')", "time_ns")
 
 
